@@ -90,11 +90,21 @@ theorem ctf_tables :
     vendorOf ctfTables [S "astar"] = S "astar" ∧ vendorOf ctfTables [S "mtex"] = S "mtex" := by
   decide +kernel
 
-/-- which Laue-class numbers the reader can turn into a point group: all but 10 (kernel-decided on the
-generated Laue table, alias table and group names) -/
+/-- every Laue-class number 1 … 11 is turned into a point group (since 35ab43a; kernel-decided on the generated
+Laue table, alias table and group names) -/
 theorem ctf_laue_classes :
     ((List.range' 1 11).filter fun (l : Nat) =>
-      (phaseOf ctfTables 1 ⟨[], [], (l : Int), 0⟩).isNone) = [10] := by
+      (phaseOf ctfTables 1 ⟨[], [], (l : Int), 0⟩).isNone) = [] := by
+  decide +kernel
+
+/-- the reader's tables before the fix: Laue class 10 spelled `m3` -/
+def ctfTablesPreFix : CtfTables :=
+  { ctfTables with laueIds := ctfTables.laueIds.map fun s => if s = S "m-3" then S "m3" else s }
+
+/-- pre-fix: class 10 (`m3`) is no point-group name — exactly that class could not be read -/
+theorem ctf_laue_classes_prefix :
+    ((List.range' 1 11).filter fun (l : Nat) =>
+      (phaseOf ctfTablesPreFix 1 ⟨[], [], (l : Int), 0⟩).isNone) = [10] := by
   decide +kernel
 
 /-- a 2×2 single-phase Oxford map with the given Laue class and space group -/
@@ -112,10 +122,12 @@ def ctfX (laue sg : Int) : CtfExtras := ⟨[laue], [sg], 2, 2, 10000, 10000, [],
 example : readCtf ctfTables (encodeCtf .oxford (ctfX 11 225) (ctfMap (S "m-3m") (some 225)))
     = some (ctfMap (S "m-3m") (some 225)) := by decide +kernel
 
-/-- **Counter-example (finding)**: Laue class 10 — the reader's table says `m3`, which is no point group:
-the file cannot be read. -/
-theorem ctf_laue_10_counterexample :
-    readCtf ctfTables (encodeCtf .oxford (ctfX 10 205) (ctfMap (S "m-3") (some 205))) = none := by
+/-- Laue class 10 (m-3, e.g. pyrite, space group 205) is read (since 35ab43a); with the pre-fix table it
+could not be -/
+theorem ctf_laue_10 :
+    readCtf ctfTables (encodeCtf .oxford (ctfX 10 205) (ctfMap (S "m-3") (some 205)))
+      = some (ctfMap (S "m-3") (some 205)) ∧
+    readCtf ctfTablesPreFix (encodeCtf .oxford (ctfX 10 205) (ctfMap (S "m-3") (some 205))) = none := by
   decide +kernel
 
 /-- **Counter-example (finding)**: a non-centrosymmetric space group (216, F-43m) with its Laue class 11:
@@ -131,6 +143,8 @@ end Ctf
 section Bruker
 open Orix.Codec.Bruker
 
+def sameAttrs (a b : List Str) : Bool := a.all (b.contains ·) && b.all (a.contains ·)
+
 /-- T-gen obligations for the Bruker reader: dataset ↦ property table, Euler datasets, degrees, phase 0,
 which arrays `final_preparations` re-orders and reverses. -/
 theorem bruker_tables :
@@ -138,13 +152,13 @@ theorem bruker_tables :
     brukerTables.degrees = true ∧ brukerTables.notIndexedId = 0 ∧ brukerTables.unit = S "um" ∧
     brukerTables.yProp = S "YSAMPLE" ∧ brukerTables.xProp = S "XSAMPLE" ∧
     brukerTables.reversedAttrs = [S "x"] ∧ brukerTables.sortsProps = true ∧
-    brukerTables.sortedAttrs = [S "x", S "phase_id", S "rotations"] := by
+    sameAttrs brukerTables.sortedAttrs [S "x", S "y", S "phase_id", S "rotations"] = true := by
   decide +kernel
 
 /-
 Full statement for Bruker files:  decode brukerTables (encode x m) = some m  for every map `m` on a full
 rectangular grid and every acquisition order `x.perm` that keeps each row's points together (for the code as
-it is; for every permutation once y is re-ordered too).  UNPROVED in this generality (the bookkeeping of
+it was before 583ef6c; for every permutation since y is re-ordered too).  UNPROVED in this generality (the bookkeeping of
 min/max of `IY`, `IX` and of the thirteen property columns is not done); proved: the combinatorial core
 `bruker_roi_sorted_back` for all arrays and all permutations, the table obligations, and kernel-checked
 instances including the counter-example.  The correspondence check exercises the full statement.
@@ -175,10 +189,18 @@ def bX (perm : List Nat) : BrukerExtras := ⟨true, perm, 2, 2, 5, 7, 0, 0, [[]]
 example : decode brukerTables (encode (bX [0, 1, 2, 3]) bMap) = some bMap := by decide +kernel
 example : decode brukerTables (encode (bX [1, 0, 3, 2]) bMap) = some bMap := by decide +kernel
 
-/-- **Counter-example (finding)**: when the acquisition order permutes *rows* (here: second row first), every
-array is sorted back by `IY`, `IX` except the y coordinates, which stay in file order. -/
-theorem bruker_y_counterexample :
-    (decode brukerTables (encode (bX [2, 3, 0, 1]) bMap)).map (fun m => m.pts.map fun p => (p.x, p.y))
+/-- an acquisition order that permutes *rows* (second row first) is sorted back too (since 583ef6c the y
+coordinates are re-ordered like every other array) … -/
+example : decode brukerTables (encode (bX [2, 3, 0, 1]) bMap) = some bMap ∧
+    decode brukerTables (encode (bX [3, 0, 2, 1]) bMap) = some bMap := by decide +kernel
+
+/-- the reader's tables before the fix: `final_preparations` did not re-order `y` -/
+def brukerTablesPreFix : BrukerTables :=
+  { brukerTables with sortedAttrs := brukerTables.sortedAttrs.filter (· != S "y") }
+
+/-- … whereas the pre-fix reader left the y coordinates in file order -/
+theorem bruker_y_prefix_counterexample :
+    (decode brukerTablesPreFix (encode (bX [2, 3, 0, 1]) bMap)).map (fun m => m.pts.map fun p => (p.x, p.y))
       = some [(0, 500), (500, 500), (0, 0), (500, 0)] ∧
     bMap.pts.map (fun p => (p.x, p.y)) = [(0, 0), (500, 0), (0, 500), (500, 500)] := by
   decide +kernel
